@@ -95,10 +95,6 @@ def harness(name, tnames, max_nodes):
                                     % (j, s, sorted(map(str, j.required)), sorted(map(str, want))), {"info": info})
                 if want != before[j]:
                     removed_any = True
-        for x in nodes:
-            if parent.get(x) is None and set(x.required) != before[x]:
-                raise Violation("C16: sanitize() changed the requirements of %s which belongs to no scheduler of the "
-                                "tree" % x, {"info": info})
         if r1 is not (not removed_any):
             raise Violation("C16: sanitize() returned %r although %s had to be removed"
                             % (r1, "something" if removed_any else "nothing"), {"info": info})
